@@ -684,6 +684,36 @@ pub fn parse_stream(text: &[u8], dribble: bool, seed: u64) -> (Vec<Parsed>, usiz
     (out, after_end)
 }
 
+/// The same input through `Parser::records_only()`.
+pub fn parse_records_only(text: &[u8], dribble: bool, seed: u64) -> (Vec<Parsed>, usize) {
+    let mut out = Vec::new();
+    let reader: Box<dyn Read> = if dribble { Box::new(Dribble { data: text, pos: 0, seed }) } else { Box::new(std::io::Cursor::new(text)) };
+    let mut parser = Parser::new(reader).records_only();
+    let mut after_end = 0;
+    loop {
+        match parser.next() {
+            None => break,
+            Some(Ok(line)) => {
+                let r = line.record;
+                out.push(Parsed::Rec(line.number, ZRec { owner: to_rname(&r.owner), ttl: u32::from(r.ttl), class: u16::from(r.class), rtype: u16::from(r.rr_type), rdata: r.rdata.octets().to_vec() }));
+            }
+            Some(Err(e)) => {
+                out.push(Parsed::Err(format!("{}", e)));
+                break;
+            }
+        }
+        if out.len() > 100_000 {
+            break;
+        }
+    }
+    for _ in 0..3 {
+        if parser.next().is_some() {
+            after_end += 1;
+        }
+    }
+    (out, after_end)
+}
+
 fn bit_reverse(b: u8) -> u8 {
     b.reverse_bits()
 }
@@ -846,11 +876,54 @@ pub fn run_c24(ctx: &Ctx, rep: &mut Report) {
                 (t, "mutated")
             }
         };
+        // sometimes an $INCLUDE directive at a line boundary, with more lines after it
+        let (text, how) = if rng.chance(1, 6) {
+            let mut t = text;
+            let starts: Vec<usize> = std::iter::once(0).chain(t.iter().enumerate().filter(|(_, c)| **c == b'\n').map(|(i, _)| i + 1)).collect();
+            let at = *rng.pick(&starts);
+            let line: &[u8] = *rng.pick(&[&b"$INCLUDE other.zone\n"[..], b"$INCLUDE sub/dir.zone example.test. ; comment\n", b"$include \"quoted path\" Origin.Example.\n", b"$INCLUDE\n", b"$INCLUDE a b c\n"]);
+            t.splice(at..at, line.iter().copied());
+            (t, if how == "mutated" { "mutated+include" } else { "include" })
+        } else {
+            (text, how)
+        };
         let dribble = rng.bool();
         let seed = rng.next_u64();
         let parsed = panicmon::catch(|| parse_stream(&text, dribble, seed));
         rep.eval();
         let w = || Json::obj(vec![("input_hex", Json::hex(&text)), ("input", Json::s(String::from_utf8_lossy(&text).to_string()))]);
+        // the records-only view of the same input: the same records up to the first $INCLUDE
+        // or error, then exactly one error, then nothing
+        if let Ok((items, _)) = &parsed {
+            match panicmon::catch(|| parse_records_only(&text, dribble, seed)) {
+                Err(p) => rep.violation(format!("c24:records_only:{}", p.signature()), format!("records_only parser panicked at {}: {}", p.location, p.message), w()),
+                Ok((ro, after_end)) => {
+                    if after_end > 0 {
+                        rep.violation("c24:records_only:yields-after-end", "records_only(): next() returned an item after the iterator had ended or failed".to_string(), w());
+                    }
+                    let mut expect: Vec<Option<(usize, &ZRec)>> = Vec::new();
+                    for it in items.iter() {
+                        match it {
+                            Parsed::Rec(n, r) => expect.push(Some((*n, r))),
+                            _ => {
+                                expect.push(None); // an error here ($INCLUDE is not supported, or the parser's own)
+                                break;
+                            }
+                        }
+                    }
+                    let same = ro.len() == expect.len()
+                        && ro.iter().zip(expect.iter()).all(|(got, want)| match (got, want) {
+                            (Parsed::Rec(n, r), Some((wn, wr))) => n == wn && r == *wr,
+                            (Parsed::Err(_), None) => true,
+                            _ => false,
+                        });
+                    if !same {
+                        rep.violation("c24:records_only:differs", format!("records_only() yields {} items, the plain parser implies {} (records up to the first $INCLUDE or error, then one error)", ro.len(), expect.len()), w());
+                    }
+                    rep.hist(if ro.iter().any(|i| matches!(i, Parsed::Err(_))) { "records_only:error" } else { "records_only:clean" });
+                }
+            }
+        }
         match parsed {
             Err(p) => rep.violation(format!("c24:{}", p.signature()), format!("parser panicked at {}: {}", p.location, p.message), w()),
             Ok((items, after_end)) => {
